@@ -20,6 +20,20 @@ class E2(Exception):
         self.tag = tag
 
 
+class EqE(Exception):
+    """All instances compare equal (value-style __eq__): identity must still be preserved."""
+
+    def __init__(self, tag="EqE"):
+        Exception.__init__(self, tag)
+        self.tag = tag
+
+    def __eq__(self, other):
+        return isinstance(other, EqE)
+
+    def __hash__(self):
+        return 11
+
+
 class KE(KeyError):
     def __init__(self, tag="KE"):
         KeyError.__init__(self, tag)
@@ -123,6 +137,8 @@ class ManualExecutor(Executor):
     def __init__(self, mc, mode="manual", label="b", forget=False, honour_cancel_futures=True):
         self.mc = mc
         self.honour_cancel_futures = honour_cancel_futures
+        self.submit_delay = 0.0         # virtual time every submit() takes
+        self.fail_submits = 0           # the next n submit() calls raise TypeError
         self.mode = mode
         self.forget = forget            # drop fn/args/future of finished items (like real pools do)
         self.lab = label
@@ -137,6 +153,12 @@ class ManualExecutor(Executor):
         if self.down:
             self.mc.emit("base.refuse", b=self.lab)
             raise RuntimeError("cannot schedule new futures after shutdown")
+        if self.fail_submits > 0:
+            self.fail_submits -= 1
+            self.mc.emit("base.submit.fault", b=self.lab)
+            raise TypeError("can't start new thread (scripted delegate fault)")
+        if self.submit_delay:
+            self.mc.sleep(self.submit_delay)
         idx = len(self.items)
         f = ProbeFuture(self.mc, "%s%d" % (self.lab, idx))
         it = Item(idx, fn, args, kwargs, f)
